@@ -141,8 +141,11 @@ func (s *Store) Spec(op Op) lib.UpdateSpec {
 		if op.MoreWritable != nil {
 			w.Paths = append(w.Paths, op.MoreWritable.Paths...)
 		}
+		if op.MoreWritable2 != nil {
+			w.Paths = append(w.Paths, op.MoreWritable2.Paths...)
+		}
 	}
-	return lib.UpdateSpec{UpdateMask: unionMask(op.UpdateMask, op.MoreUpdateMask), Writable: w, ResetMask: op.ResetMask}
+	return lib.UpdateSpec{UpdateMask: unionMask(op.UpdateMask, op.MoreUpdateMask), Writable: w, ResetMask: op.ResetMask, PathByPath: op.MoreUpdateMask == nil}
 }
 
 // staticCandidates lists the ids GenerateUniqueId tries with a StaticRNG.
